@@ -76,6 +76,9 @@ cust_arg = z3.Function("cust_arg", I, I, Ty)
 TySet = z3.SetSort(Ty)
 
 
+ty_decl = z3.Function("ty_decl", Ty, I)            # custom sorts: the declaration (sort constructor) they instantiate
+
+
 def ty_arity(t):
     """PySMTType.arity: number of component types (typing.py: args)"""
     return z3.If(Ty.is_ArrT(t), z3.IntVal(2),
